@@ -82,7 +82,7 @@ func c06Rules(tier string) []Rule {
 			rs := d.Check(w)
 			// the loop ranges over all existing nodes of the results that are returned
 			rs = append(rs, (MPT{ID: id, Fn: sim, Ret: core.RetNilConst, Gates: gates(
-				G(`-^\(phi\(-1\|\(phi↺ \+ 1\)\|\(phi↺ \+ 1\)\) \+ 1\) < len\(&local<sched\.Results>\.ExistingNodes\)$`),
+				G(`-^\(phi\(-1\|\(phi↺ \+ 1\)\) \+ 1\) < len\(&local<sched\.Results>\.ExistingNodes\)$`),
 				G(`+^\(\*sched\.Scheduler\)\.Solve\(.*\)#1 == nil$`),
 			)}).Check(w)...)
 			return rs
@@ -128,7 +128,7 @@ func c06Rules(tier string) []Rule {
 			if f == nil {
 				return []core.Result{core.Bad(id, "PROV", "PROV:disr.NewCandidate:reschedulable", "", "reschedulable-pod filter cannot be resolved")}
 			}
-			if len(w.Sites(f, regexp.MustCompile(`^return utils/pod\.IsReschedulable\(\$0\)$`), false)) == 0 {
+			if len(w.SitesOr(f, regexp.MustCompile(`^return utils/pod\.IsReschedulable\(\$0\)$`), false, 1)) == 0 {
 				return []core.Result{core.Bad(id, "PROV", "PROV:disr.NewCandidate:reschedulable", w.Pos(f.Pos()), "reschedulable pods are no longer exactly those with IsReschedulable")}
 			}
 			return []core.Result{core.OK(id, "PROV", "PROV:disr.NewCandidate:reschedulable", 1, "Filter(pods, IsReschedulable)")}
@@ -193,7 +193,7 @@ func c06Commands(w *core.World, id string) []core.Result {
 		G(`+^\(\*sched\.NodeClaim\)\.RemoveInstanceTypeOptionsByPriceAndMinValues\(.*, disr\.sumCandidatePrices\(\$2\)\)#1 == nil$`),
 		G(`+^len\(` + opts + `\)>=1$`),
 		// not a spot→spot move
-		G(`-^phi\(true\|phi↺\|false\)$`, `-^`+hasSpot),
+		G(`-^phi\(false\|true\|phi↺\)$`, `-^`+hasSpot),
 		// OD → {spot, OD} is pinned to spot
 		G(`-^`+hasSpot, `-^`+hasOD, `instr:^call \(scheduling\.Requirements\)\.Add\(.*\.NewNodeClaims\[0\]\.NodeClaimTemplate\.Requirements, &local<\[1\]\*scheduling\.Requirement>\[:\]\)$`),
 		// options were price-ordered before filtering
@@ -224,7 +224,7 @@ func c06Commands(w *core.World, id string) []core.Result {
 	}
 	// the pin is capacity-type In [spot]
 	pin := regexp.MustCompile(`^store &local<\[1\]\*scheduling\.Requirement>\[0\] = scheduling\.NewRequirement\("karpenter\.sh/capacity-type", "In", &local<\[1\]string>\[:\]\)$`)
-	if len(w.Sites(fn, pin, false)) == 0 || len(w.Sites(fn, regexp.MustCompile(`^store &local<\[1\]string>\[0\] = "spot"$`), false)) == 0 {
+	if len(w.SitesOr(fn, pin, false, 1)) == 0 || len(w.SitesOr(fn, regexp.MustCompile(`^store &local<\[1\]string>\[0\] = "spot"$`), false, 1)) == 0 {
 		out = append(out, core.Bad(id, "MPT", construct+":pin", w.Pos(fn.Pos()), "the requirement added for OD→{spot,OD} is no longer capacity-type In [spot]"))
 	}
 	// the candidates of the command are the ones simulated
@@ -273,12 +273,12 @@ func c06SpotToSpot(w *core.World, id string) []core.Result {
 		}
 	}
 	// the pin
-	if len(w.Sites(fn, regexp.MustCompile(`^store &local<\[1\]\*scheduling\.Requirement>\[0\] = scheduling\.NewRequirement\("karpenter\.sh/capacity-type", "In", &local<\[1\]string>\[:\]\)$`), false)) == 0 ||
-		len(w.Sites(fn, regexp.MustCompile(`^store &local<\[1\]string>\[0\] = "spot"$`), false)) == 0 {
+	if len(w.SitesOr(fn, regexp.MustCompile(`^store &local<\[1\]\*scheduling\.Requirement>\[0\] = scheduling\.NewRequirement\("karpenter\.sh/capacity-type", "In", &local<\[1\]string>\[:\]\)$`), false, 1)) == 0 ||
+		len(w.SitesOr(fn, regexp.MustCompile(`^store &local<\[1\]string>\[0\] = "spot"$`), false, 1)) == 0 {
 		out = append(out, core.Bad(id, "DOM", construct+":pin", w.Pos(fn.Pos()), "the spot-to-spot replacement is no longer pinned to capacity-type In [spot]"))
 	}
 	// the max operands: 15 and the minValues need
-	if len(w.Sites(fn, regexp.MustCompile(`^store &local<\[2\]int>\[0\] = 15$`), false)) == 0 {
+	if len(w.SitesOr(fn, regexp.MustCompile(`^store &local<\[2\]int>\[0\] = 15$`), false, 1)) == 0 {
 		out = append(out, core.Bad(id, "DOM", construct+":cap", w.Pos(fn.Pos()), "the launch list cap is no longer max(15, minValues need)"))
 	}
 	if len(out) == 0 {
@@ -300,7 +300,7 @@ func c06Subset(w *core.World, id string) []core.Result {
 		return []core.Result{core.Bad(id, "PROV", "PROV:disr.instanceTypesAreSubset", w.Pos(fn.Pos()), "the subset test no longer compares |names(rhs) ∩ names(lhs)| with |names(lhs)|")}
 	}
 	for _, f := range fn.AnonFuncs {
-		if len(w.Sites(f, regexp.MustCompile(`^return \$0\.Name$`), false)) == 0 {
+		if len(w.SitesOr(f, regexp.MustCompile(`^return \$0\.Name$`), false, 1)) == 0 {
 			return []core.Result{core.Bad(id, "PROV", "PROV:disr.instanceTypesAreSubset", w.Pos(f.Pos()), "instance types are no longer compared by Name")}
 		}
 	}
@@ -346,7 +346,7 @@ func c06FirstN(w *core.World, id string) []core.Result {
 		out = append(out, core.Bad(id, "MPT", construct, w.Pos(fn.Pos()), "vacuous: the validDecision flag was not found (idiom not recognised)"))
 	}
 	// the save is guarded by the flag
-	d := DOM{ID: id, Fn: fname, Sink: `^store &local<disr\.Command> = \(\*disr\.consolidation\)\.computeConsolidation\(.*\)#0$`, Shallow: true, Min: 1, Gates: gates(G(`+^phi\(phi\(\(\(disr\.Command\)\.Decision\(`))}
+	d := DOM{ID: id, Fn: fname, Sink: `^store &local<disr\.Command> = \(\*disr\.consolidation\)\.computeConsolidation\(.*\)#0$`, Shallow: true, Min: 1, Gates: gates(G(`+^phi\(false\|phi\(true\|\(\(disr\.Command\)\.Decision\(`))}
 	for _, r := range d.Check(w) {
 		if r.Status != core.Discharged {
 			out = append(out, r)
